@@ -21,9 +21,8 @@ def run(tier, seed):
     e1b = [o for o in rep.obs if o.kind == "bounded" and "/bounded/" not in o.name]
     rep.rule = ("E1: one VC per (class, derivation, symbolic path, clause); E3 scope (DESIGN Appendix B): structured skeleton corpus x element/role/stereo decorations x "
                 "the operation's argument space; distinct_nontrivial = distinct base graphs of the E3 part")
-    rep.trusted_base = ["pyvc encoding of CPython semantics + symbolic heap (z3 arrays)", "assumed contract of copy.deepcopy (structural copy, every mutable object fresh, modelled as a copy of the heap into a fresh reference block)", "z3 5.1"]
-    rep.assumptions = ["bounded-mode VCs (kind=bounded without '/bounded/' in the name): loops over symbolic containers unrolled for at most K elements per container (K in vf/props/e1_derive.py:PLAN), everything else unbounded",
-                       "E3: only the enumerated scope is covered", "descriptor objects are immutable values (no public operation mutates one)"]
+    rep.trusted_base = ["pyvc encoding of CPython semantics + symbolic heap (z3 arrays)", "generic-element summarisation of comprehensions (vf/pyvc/summarise.py) with its allocator contract: objects created by different iterations / allocation sites are different and new", "assumed contract of copy.deepcopy (structural copy, every mutable object fresh, modelled as a copy of the heap into a fresh reference block)", "z3 5.1 (E-matching first, model-based instantiation as the last stage; unsat from any stage discharges)"]
+    rep.assumptions = ["loops are verified through side-car invariants (init / generic step / exit, iteration order arbitrary), comprehensions through generic-element summaries; termination is not proved", "callees are inlined except _StereoMixin.invert and the shared descriptor constructor, which enter through contracts discharged on their real bodies", "bounded-mode VCs (kind=bounded without '/bounded/' in the name; only the one-shot-iterator argument of subgraph): unrolled for at most K elements (K in vf/props/e1_derive.py:PLAN)", "compose of more than two graphs, compose of the stereo classes and deserialisation are decided by the bounded part only", "E3: only the enumerated scope is covered", "descriptor objects are immutable values (no public operation mutates one)"]
     rep.explanation = (f"{len(proof)} unbounded proof obligations, {len(e1b)} bounded-mode VCs, plus the bounded relational contract groups listed in coverage.bounded_groups")
     rep.samples = [o.name for o in (proof + e1b)[:: max(1, (len(proof) + len(e1b)) // 8)]][:8]
     return rep, t0
